@@ -1,0 +1,215 @@
+//go:build verif
+
+// Contracts for the deductive verifier in /verif (govc). Comment-only: this file adds no code.
+package eval
+
+// ---- C10: expression semantics and purity
+
+// Views of the protobuf oneof sysl.Value.
+//@ spec isI(v ref) bool = v != nil && tagof(v.Value) == typeid("*sysl.Value_I")
+//@ spec isB(v ref) bool = v != nil && tagof(v.Value) == typeid("*sysl.Value_B")
+//@ spec isS(v ref) bool = v != nil && tagof(v.Value) == typeid("*sysl.Value_S")
+//@ spec isList(v ref) bool = v != nil && tagof(v.Value) == typeid("*sysl.Value_List_") && as("*sysl.Value_List_", v.Value).List != nil
+//@ spec isSet(v ref) bool = v != nil && tagof(v.Value) == typeid("*sysl.Value_Set") && as("*sysl.Value_Set", v.Value).Set != nil
+//@ spec isMap(v ref) bool = v != nil && tagof(v.Value) == typeid("*sysl.Value_Map_") && as("*sysl.Value_Map_", v.Value).Map != nil
+//@ spec valI(v ref) int = as("*sysl.Value_I", v.Value).I
+//@ spec valB(v ref) bool = as("*sysl.Value_B", v.Value).B
+//@ spec valS(v ref) string = as("*sysl.Value_S", v.Value).S
+//@ spec listOf(v ref) ref = as("*sysl.Value_List_", v.Value).List
+//@ spec setOf(v ref) ref = as("*sysl.Value_Set", v.Value).Set
+//@ spec mapOf(v ref) ref = as("*sysl.Value_Map_", v.Value).Map
+//@ spec freshI(r ref, n int) bool = fresh(r) && isI(r) && valI(r) == n
+//@ spec freshB(r ref, b bool) bool = fresh(r) && isB(r) && valB(r) == b
+//@ spec freshS(r ref, s string) bool = fresh(r) && isS(r) && valS(r) == s
+
+// Constructors
+//@ func MakeValueI64
+//@   pure
+//@   ensures [value] freshI(result, val)
+//@ func MakeValueBool
+//@   pure
+//@   ensures [value] freshB(result, val)
+//@ func MakeValueString
+//@   pure
+//@   ensures [value] freshS(result, val)
+//@ func MakeValueSet
+//@   pure
+//@   ensures [empty-set] fresh(result) && isSet(result) && fresh(setOf(result)) && len(setOf(result).Value) == 0
+//@ func MakeValueMap
+//@   pure
+//@   ensures [empty-map] fresh(result) && isMap(result) && fresh(mapOf(result)) && mapOf(result).Items != nil && fresh(mapOf(result).Items) && len(mapOf(result).Items) == 0
+
+// Integer operators: int64 arithmetic wraps (Go semantics), results are fresh values, operands untouched.
+//@ func addInt64
+//@   arith wrap64
+//@   pure
+//@   ensures [value] freshI(result, wrap64(lhs.GetI() + rhs.GetI()))
+//@ func subInt64
+//@   arith wrap64
+//@   pure
+//@   ensures [value] freshI(result, wrap64(lhs.GetI() - rhs.GetI()))
+//@ func mulInt64
+//@   arith wrap64
+//@   pure
+//@   ensures [value] freshI(result, wrap64(lhs.GetI() * rhs.GetI()))
+//@ func divInt64
+//@   arith wrap64
+//@   pure
+//@   requires [divisor-nonzero] rhs.GetI() != 0
+//@   ensures [value] freshI(result, wrap64(lhs.GetI() / rhs.GetI()))
+//@ func modInt64
+//@   arith wrap64
+//@   pure
+//@   requires [divisor-nonzero] rhs.GetI() != 0
+//@   ensures [value] freshI(result, lhs.GetI() % rhs.GetI())
+//@ func gtInt64
+//@   pure
+//@   ensures [value] freshB(result, lhs.GetI() > rhs.GetI())
+//@ func ltInt64
+//@   pure
+//@   ensures [value] freshB(result, lhs.GetI() < rhs.GetI())
+//@ func geInt64
+//@   pure
+//@   ensures [value] freshB(result, lhs.GetI() >= rhs.GetI())
+//@ func leInt64
+//@   pure
+//@   ensures [value] freshB(result, lhs.GetI() <= rhs.GetI())
+//@ func cmpInt
+//@   pure
+//@   ensures [value] freshB(result, lhs.GetI() == rhs.GetI())
+//@ func addString
+//@   pure
+//@   ensures [value] freshS(result, lhs.GetS() + rhs.GetS())
+//@ func cmpString
+//@   pure
+//@   ensures [value] freshB(result, lhs.GetS() == rhs.GetS())
+//@ func cmpBool
+//@   pure
+//@   ensures [value] freshB(result, lhs.GetB() == rhs.GetB())
+//@ func andBool
+//@   pure
+//@   ensures [value] freshB(result, lhs.GetB() && rhs.GetB())
+//@ func cmpNullTrue
+//@   pure
+//@   ensures [value] freshB(result, true)
+//@ func cmpNullFalse
+//@   pure
+//@   ensures [value] freshB(result, false)
+//@ func stringInNull
+//@   pure
+//@   ensures [value] freshB(result, false)
+//@ func stringNotInNull
+//@   pure
+//@   ensures [value] freshB(result, true)
+
+// List concatenation: the result is a fresh list holding lhs then rhs; neither operand's storage is written.
+//@ func concat
+//@   pure
+//@   requires lhs != nil && rhs != nil
+//@   ensures [fresh-list] fresh(result) && isList(result) && fresh(listOf(result))
+//@   ensures [len] len(listOf(result).Value) == len(lhs.Value) + len(rhs.Value)
+//@   ensures [left] forall(i, 0, len(lhs.Value), listOf(result).Value[i] == lhs.Value[i])
+//@   ensures [right] forall(i, 0, len(rhs.Value), listOf(result).Value[len(lhs.Value)+i] == rhs.Value[i])
+//@   ensures [lhs-kept] lhs.Value == old(lhs.Value) && forall(i, 0, len(lhs.Value), lhs.Value[i] == old(lhs.Value[i]))
+//@   ensures [rhs-kept] rhs.Value == old(rhs.Value) && forall(i, 0, len(rhs.Value), rhs.Value[i] == old(rhs.Value[i]))
+
+//@ func AppendItemToValueList
+//@   requires m != nil
+//@   modifies m.Value, elems(m.Value)
+//@   ensures [len] len(m.Value) == old(len(m.Value)) + 1
+//@   ensures [last] m.Value[len(m.Value)-1] == val
+//@   ensures [keep] forall(i, 0, old(len(m.Value)), m.Value[i] == old(m.Value[i]))
+
+//@ func AddItemToValueMap
+//@   requires isMap(m) && mapOf(m).Items != nil
+//@   modifies mapof(mapOf(m).Items)
+//@   ensures [stored] in(name, mapOf(m).Items) && mapOf(m).Items[name] == val
+//@   ensures [others-kept] forallstr(k, k != name ==> (in(k, mapOf(m).Items) == old(in(k, mapOf(m).Items)) && mapOf(m).Items[k] == old(mapOf(m).Items[k])))
+
+// Membership tests
+//@ func stringInList
+//@   pure
+//@   requires isList(rhs)
+//@   ensures [value] freshB(result, exists(j, 0, len(listOf(rhs).Value), listOf(rhs).Value[j].GetS() == lhs.GetS()))
+//@   loop 0 invariant [none-before] forall(j, 0, rangeindex+1, listOf(rhs).Value[j].GetS() != lhs.GetS())
+//@ func stringInSet
+//@   pure
+//@   requires isSet(rhs)
+//@   ensures [value] freshB(result, exists(j, 0, len(setOf(rhs).Value), setOf(rhs).Value[j].GetS() == lhs.GetS()))
+//@   loop 0 invariant [none-before] forall(j, 0, rangeindex+1, setOf(rhs).Value[j].GetS() != lhs.GetS())
+//@ func stringNotInList
+//@   pure
+//@   requires isList(rhs)
+//@   ensures [value] freshB(result, !exists(j, 0, len(listOf(rhs).Value), listOf(rhs).Value[j].GetS() == lhs.GetS()))
+//@ func stringNotInSet
+//@   pure
+//@   requires isSet(rhs)
+//@   ensures [value] freshB(result, !exists(j, 0, len(setOf(rhs).Value), setOf(rhs).Value[j].GetS() == lhs.GetS()))
+//@ func stringInMapKey
+//@   pure
+//@   requires isMap(rhs)
+//@   ensures [value] freshB(result, in(lhs.GetS(), mapOf(rhs).Items))
+//@ func stringNotInMapKey
+//@   pure
+//@   requires isMap(rhs)
+//@   ensures [value] freshB(result, !in(lhs.GetS(), mapOf(rhs).Items))
+
+// Set semantics of transforms: a value equal (proto.Equal) to a member is not added again; otherwise it is appended.
+//@ func setAppender
+//@   modifies elems(collection)
+//@   ensures [member-not-added] exists(j, 0, len(collection), sameValue(newVal, collection[j])) ==> result == collection
+//@   ensures [new-appended] !exists(j, 0, len(collection), sameValue(newVal, collection[j])) ==> len(result) == len(collection) + 1 && result[len(collection)] == newVal
+//@   ensures [prefix-kept] forall(i, 0, len(collection), result[i] == old(collection[i]))
+//@   loop 0 invariant [none-before] forall(j, 0, rangeindex+1, !sameValue(newVal, collection[j]))
+//@ func listAppender
+//@   modifies elems(collection)
+//@   ensures [appended] len(result) == len(collection) + 1 && result[len(collection)] == newVal
+//@   ensures [prefix-kept] forall(i, 0, len(collection), result[i] == old(collection[i]))
+
+// Unary minus / not
+//@ func unaryNeg
+//@   arith wrap64
+//@   pure
+//@   maypanic
+//@   requires arg != nil
+//@   ensures [int] old(isI(arg)) ==> freshI(result, wrap64(-valI(arg)))
+//@   ensures [bool] old(isB(arg)) ==> freshB(result, !valB(arg))
+
+// ---- scope variables: evaluating a transform / where / flatten never changes what a name was bound to before.
+// The recursive evaluator calls (Eval, evalTransformStmts, the table-dispatched operators) are opaque here: they
+// may do anything to the heap; the obligations below hold whatever they do.
+
+//@ func LHSOverRHSStrategy.eval
+//@   maypanic
+//@   requires assign != nil && binexpr != nil
+//@   mark @after:eval.Eval#1 afterLhs
+//@   ensures [scopevar-restored] in(old(binexpr.Scopevar), assign) == at("afterLhs", in(old(binexpr.Scopevar), assign))
+//@   ensures [scopevar-value] in(old(binexpr.Scopevar), assign) ==> assign[old(binexpr.Scopevar)] == at("afterLhs", assign[old(binexpr.Scopevar)])
+
+//@ func evalTransformUsingAppender
+//@   requires assign != nil && x != nil
+//@   ensures [scopevar-restored] in(old(x.Scopevar), assign) == old(in(x.Scopevar, assign))
+//@   ensures [scopevar-value] old(in(x.Scopevar, assign)) ==> assign[old(x.Scopevar)] == old(assign[x.Scopevar])
+
+//@ func (*exprEval).evalTransform
+//@   maypanic
+//@   requires assign != nil && x != nil && x.Transform != nil && e != nil
+//@   mark @after:eval.Eval#1 afterArg
+//@   ensures [scopevar-restored] old(x.Transform.Arg.GetName()) != "." ==> in(at("afterArg", x.Transform.Scopevar), assign) == at("afterArg", in(x.Transform.Scopevar, assign))
+//@   ensures [scopevar-value] old(x.Transform.Arg.GetName()) != "." && in(at("afterArg", x.Transform.Scopevar), assign) ==> assign[at("afterArg", x.Transform.Scopevar)] == at("afterArg", assign[x.Transform.Scopevar])
+
+// Sorted, duplicate-free conversion of an integer set (set union result)
+//@ func intSet
+//@   ensures [keys] result != nil && fresh(result) && forall(j, 0, len(list), in(list[j].GetI(), result))
+//@   loop 0 invariant [keys] m != nil && fresh(m) && forall(j, 0, rangeindex+1, in(list[j].GetI(), m))
+
+//@ func stringSet
+//@   ensures [keys] result != nil && fresh(result) && forall(j, 0, len(list), in(list[j].GetS(), result))
+//@   loop 0 invariant [keys] m != nil && fresh(m) && forall(j, 0, rangeindex+1, in(list[j].GetS(), m))
+
+// Conditionals evaluate exactly one branch, chosen by the condition's boolean value.
+//@ func GetValueSlice
+//@   maypanic
+//@   requires obj != nil
+//@   ensures [list] old(isList(obj)) ==> result == listOf(obj).Value
+//@   ensures [set] old(isSet(obj)) ==> result == setOf(obj).Value
